@@ -38,7 +38,7 @@ struct FileGen {
 
 const TYPES: [&str; 4] = ["int", "str", "float", "bool"];
 
-const WORDS: [&str; 12] = ["the", "quick", "brown", "fox", "jumps", "over", "lazy", "dogs", "and", "keeps", "running", "along"];
+const WORDS: [&str; 14] = ["the", "quick", "brown", "fox", "jumps", "over", "lazy", "dogs", "and", "keeps", "running", "along", "say:\"hi", "it's"];
 const NONASCII_COMMENTS: [&str; 6] = [
     "// åäö ÅÄÖ — räksmörgås",
     "// 日本語のコメント、行番号はそのまま",
@@ -885,8 +885,9 @@ fn gen_plant(g: &mut G, files: &mut Vec<FileGen>, pfile: usize, avoid_known: boo
             }
         }
         "duplicate" => {
+            // (not the names the text shapes define: removing a shape must not remove the duplicate)
             let defs: Vec<(String, String)> =
-                files[pfile].pieces.iter().flat_map(|pc| pc.defines.iter().map(move |(n, _)| (n.clone(), pc.role.clone()))).collect();
+                files[pfile].pieces.iter().filter(|pc| pc.shape.is_none()).flat_map(|pc| pc.defines.iter().map(move |(n, _)| (n.clone(), pc.role.clone()))).collect();
             if defs.is_empty() {
                 // nothing to duplicate: define twice ourselves
                 p.setup.push(format!("{} :: 1", x));
@@ -1028,6 +1029,19 @@ fn gen_plant(g: &mut G, files: &mut Vec<FileGen>, pfile: usize, avoid_known: boo
                 _ => (paren.clone(), "paren"),
             };
             p.spelling = format!("{}-{}-{}", src, what, fname_form);
+            if fname_form != "prime" && g.t.chance(1, 6) {
+                // the call on its own line inside a multi-line construct
+                let w = if g.t.bool() {
+                    Wrap { kind: "call-arg".into(), open: vec![format!("zg{} :: as_str(", k)], close: vec![")".into()], inner: 1 }
+                } else {
+                    Wrap { kind: "paren-group".into(), open: vec![format!("zg{} :: (", k)], close: vec![")".into()], inner: 1 }
+                };
+                p.wraps.push(w);
+                p.twin = "0".into();
+                p.line = call;
+                decorate(g, &mut p);
+                return p;
+            }
             p.line = if in_block {
                 match g.t.below(3) {
                     0 => call,
